@@ -770,6 +770,8 @@ impl ContinuityStore {
     pub fn ensure_default(&self) -> Result<String, String> {
         let workspace = workspace_key(&self.workspace_root);
 
+        #[cfg(rip_verif)]
+        rip_kernel::verif::lock_point("cont.index", &|| self.index.try_lock().is_ok());
         if let Some(existing) = self
             .index
             .lock()
@@ -787,6 +789,8 @@ impl ContinuityStore {
         {
             // Backfill the cache index so future calls are O(1).
             {
+                #[cfg(rip_verif)]
+                rip_kernel::verif::lock_point("cont.index", &|| self.index.try_lock().is_ok());
                 let mut index = self.index.lock().expect("continuity index mutex");
                 index.workspaces.insert(workspace.clone(), existing.clone());
                 let _ = save_index(&index_path(&self.data_dir), &index);
@@ -893,8 +897,12 @@ impl ContinuityStore {
             .append(&event)
             .map_err(|err| format!("append continuity_branched: {err}"))?;
         self.stream_cache.append_best_effort(&event);
+        #[cfg(rip_verif)]
+        rip_kernel::verif::point("cont.publish");
         let _ = self.sender.send(event.clone());
 
+        #[cfg(rip_verif)]
+        rip_kernel::verif::lock_point("cont.next_seq", &|| self.next_seq.try_lock().is_ok());
         self.next_seq
             .lock()
             .expect("continuity seq mutex")
@@ -1020,8 +1028,12 @@ impl ContinuityStore {
             .append(&event)
             .map_err(|err| format!("append continuity_handoff_created: {err}"))?;
         self.stream_cache.append_best_effort(&event);
+        #[cfg(rip_verif)]
+        rip_kernel::verif::point("cont.publish");
         let _ = self.sender.send(event.clone());
 
+        #[cfg(rip_verif)]
+        rip_kernel::verif::lock_point("cont.next_seq", &|| self.next_seq.try_lock().is_ok());
         self.next_seq
             .lock()
             .expect("continuity seq mutex")
@@ -2893,6 +2905,8 @@ impl ContinuityStore {
     }
 
     pub fn list(&self) -> Vec<ContinuityMeta> {
+        #[cfg(rip_verif)]
+        rip_kernel::verif::lock_point("cont.index", &|| self.index.try_lock().is_ok());
         let index = self.index.lock().expect("continuity index mutex");
         index
             .continuities
@@ -2907,6 +2921,8 @@ impl ContinuityStore {
     }
 
     pub fn get(&self, continuity_id: &str) -> Option<ContinuityMeta> {
+        #[cfg(rip_verif)]
+        rip_kernel::verif::lock_point("cont.index", &|| self.index.try_lock().is_ok());
         let index = self.index.lock().expect("continuity index mutex");
         let meta = index.continuities.get(continuity_id)?;
         Some(ContinuityMeta {
@@ -2924,6 +2940,8 @@ impl ContinuityStore {
         origin: String,
         content: String,
     ) -> Result<String, String> {
+        #[cfg(rip_verif)]
+        rip_kernel::verif::lock_point("cont.next_seq", &|| self.next_seq.try_lock().is_ok());
         let mut next_seq = self.next_seq.lock().expect("continuity seq mutex");
         let seq = match next_seq.get(continuity_id).cloned() {
             Some(seq) => seq,
@@ -2952,6 +2970,8 @@ impl ContinuityStore {
             .append(&event)
             .map_err(|err| format!("append continuity message: {err}"))?;
         self.stream_cache.append_best_effort(&event);
+        #[cfg(rip_verif)]
+        rip_kernel::verif::point("cont.publish");
         let _ = self.sender.send(event.clone());
 
         // Only advance after a successful append to avoid gaps in the truth log.
@@ -2967,6 +2987,8 @@ impl ContinuityStore {
         actor_id: String,
         origin: String,
     ) -> Result<String, String> {
+        #[cfg(rip_verif)]
+        rip_kernel::verif::lock_point("cont.next_seq", &|| self.next_seq.try_lock().is_ok());
         let mut next_seq = self.next_seq.lock().expect("continuity seq mutex");
         let seq = match next_seq.get(continuity_id).cloned() {
             Some(seq) => seq,
@@ -2996,6 +3018,8 @@ impl ContinuityStore {
             .append(&event)
             .map_err(|err| format!("append continuity run spawned: {err}"))?;
         self.stream_cache.append_best_effort(&event);
+        #[cfg(rip_verif)]
+        rip_kernel::verif::point("cont.publish");
         let _ = self.sender.send(event.clone());
 
         next_seq.insert(continuity_id.to_string(), seq + 1);
@@ -3007,6 +3031,8 @@ impl ContinuityStore {
         continuity_id: &str,
         payload: ContextSelectionDecidedPayload,
     ) -> Result<String, String> {
+        #[cfg(rip_verif)]
+        rip_kernel::verif::lock_point("cont.next_seq", &|| self.next_seq.try_lock().is_ok());
         let mut next_seq = self.next_seq.lock().expect("continuity seq mutex");
         let seq = match next_seq.get(continuity_id).cloned() {
             Some(seq) => seq,
@@ -3043,6 +3069,8 @@ impl ContinuityStore {
             .append(&event)
             .map_err(|err| format!("append continuity context selection decided: {err}"))?;
         self.stream_cache.append_best_effort(&event);
+        #[cfg(rip_verif)]
+        rip_kernel::verif::point("cont.publish");
         let _ = self.sender.send(event.clone());
 
         next_seq.insert(continuity_id.to_string(), seq + 1);
@@ -3054,6 +3082,8 @@ impl ContinuityStore {
         continuity_id: &str,
         payload: ContextCompiledPayload,
     ) -> Result<String, String> {
+        #[cfg(rip_verif)]
+        rip_kernel::verif::lock_point("cont.next_seq", &|| self.next_seq.try_lock().is_ok());
         let mut next_seq = self.next_seq.lock().expect("continuity seq mutex");
         let seq = match next_seq.get(continuity_id).cloned() {
             Some(seq) => seq,
@@ -3087,6 +3117,8 @@ impl ContinuityStore {
             .append(&event)
             .map_err(|err| format!("append continuity context compiled: {err}"))?;
         self.stream_cache.append_best_effort(&event);
+        #[cfg(rip_verif)]
+        rip_kernel::verif::point("cont.publish");
         let _ = self.sender.send(event.clone());
 
         next_seq.insert(continuity_id.to_string(), seq + 1);
@@ -3098,6 +3130,8 @@ impl ContinuityStore {
         continuity_id: &str,
         payload: ProviderCursorUpdatedPayload,
     ) -> Result<String, String> {
+        #[cfg(rip_verif)]
+        rip_kernel::verif::lock_point("cont.next_seq", &|| self.next_seq.try_lock().is_ok());
         let mut next_seq = self.next_seq.lock().expect("continuity seq mutex");
         let seq = match next_seq.get(continuity_id).cloned() {
             Some(seq) => seq,
@@ -3132,6 +3166,8 @@ impl ContinuityStore {
             .append(&event)
             .map_err(|err| format!("append continuity provider cursor updated: {err}"))?;
         self.stream_cache.append_best_effort(&event);
+        #[cfg(rip_verif)]
+        rip_kernel::verif::point("cont.publish");
         let _ = self.sender.send(event.clone());
 
         next_seq.insert(continuity_id.to_string(), seq + 1);
@@ -3143,6 +3179,8 @@ impl ContinuityStore {
         continuity_id: &str,
         payload: CompactionCheckpointCreatedPayload,
     ) -> Result<String, String> {
+        #[cfg(rip_verif)]
+        rip_kernel::verif::lock_point("cont.next_seq", &|| self.next_seq.try_lock().is_ok());
         let mut next_seq = self.next_seq.lock().expect("continuity seq mutex");
         let seq = match next_seq.get(continuity_id).cloned() {
             Some(seq) => seq,
@@ -3178,6 +3216,8 @@ impl ContinuityStore {
             .append(&event)
             .map_err(|err| format!("append continuity compaction checkpoint: {err}"))?;
         self.stream_cache.append_best_effort(&event);
+        #[cfg(rip_verif)]
+        rip_kernel::verif::point("cont.publish");
         let _ = self.sender.send(event.clone());
 
         next_seq.insert(continuity_id.to_string(), seq + 1);
@@ -3189,6 +3229,8 @@ impl ContinuityStore {
         continuity_id: &str,
         payload: CompactionAutoScheduleDecidedPayload,
     ) -> Result<String, String> {
+        #[cfg(rip_verif)]
+        rip_kernel::verif::lock_point("cont.next_seq", &|| self.next_seq.try_lock().is_ok());
         let mut next_seq = self.next_seq.lock().expect("continuity seq mutex");
         let seq = match next_seq.get(continuity_id).cloned() {
             Some(seq) => seq,
@@ -3229,6 +3271,8 @@ impl ContinuityStore {
             .append(&event)
             .map_err(|err| format!("append continuity compaction schedule decided: {err}"))?;
         self.stream_cache.append_best_effort(&event);
+        #[cfg(rip_verif)]
+        rip_kernel::verif::point("cont.publish");
         let _ = self.sender.send(event.clone());
 
         next_seq.insert(continuity_id.to_string(), seq + 1);
@@ -3244,6 +3288,8 @@ impl ContinuityStore {
         actor_id: String,
         origin: String,
     ) -> Result<String, String> {
+        #[cfg(rip_verif)]
+        rip_kernel::verif::lock_point("cont.next_seq", &|| self.next_seq.try_lock().is_ok());
         let mut next_seq = self.next_seq.lock().expect("continuity seq mutex");
         let seq = match next_seq.get(continuity_id).cloned() {
             Some(seq) => seq,
@@ -3274,6 +3320,8 @@ impl ContinuityStore {
             .append(&event)
             .map_err(|err| format!("append continuity job spawned: {err}"))?;
         self.stream_cache.append_best_effort(&event);
+        #[cfg(rip_verif)]
+        rip_kernel::verif::point("cont.publish");
         let _ = self.sender.send(event.clone());
 
         next_seq.insert(continuity_id.to_string(), seq + 1);
@@ -3285,6 +3333,8 @@ impl ContinuityStore {
         continuity_id: &str,
         payload: JobEndedPayload,
     ) -> Result<String, String> {
+        #[cfg(rip_verif)]
+        rip_kernel::verif::lock_point("cont.next_seq", &|| self.next_seq.try_lock().is_ok());
         let mut next_seq = self.next_seq.lock().expect("continuity seq mutex");
         let seq = match next_seq.get(continuity_id).cloned() {
             Some(seq) => seq,
@@ -3317,6 +3367,8 @@ impl ContinuityStore {
             .append(&event)
             .map_err(|err| format!("append continuity job ended: {err}"))?;
         self.stream_cache.append_best_effort(&event);
+        #[cfg(rip_verif)]
+        rip_kernel::verif::point("cont.publish");
         let _ = self.sender.send(event.clone());
 
         next_seq.insert(continuity_id.to_string(), seq + 1);
@@ -3368,6 +3420,8 @@ impl ContinuityStore {
         actor_id: String,
         origin: String,
     ) -> Result<String, String> {
+        #[cfg(rip_verif)]
+        rip_kernel::verif::lock_point("cont.next_seq", &|| self.next_seq.try_lock().is_ok());
         let mut next_seq = self.next_seq.lock().expect("continuity seq mutex");
         let seq = match next_seq.get(continuity_id).cloned() {
             Some(seq) => seq,
@@ -3398,6 +3452,8 @@ impl ContinuityStore {
             .append(&event)
             .map_err(|err| format!("append continuity run ended: {err}"))?;
         self.stream_cache.append_best_effort(&event);
+        #[cfg(rip_verif)]
+        rip_kernel::verif::point("cont.publish");
         let _ = self.sender.send(event.clone());
 
         next_seq.insert(continuity_id.to_string(), seq + 1);
@@ -3411,6 +3467,8 @@ impl ContinuityStore {
         effects: ToolSideEffects,
     ) -> Result<String, String> {
         let continuity_id = run.continuity_id.as_str();
+        #[cfg(rip_verif)]
+        rip_kernel::verif::lock_point("cont.next_seq", &|| self.next_seq.try_lock().is_ok());
         let mut next_seq = self.next_seq.lock().expect("continuity seq mutex");
         let seq = match next_seq.get(continuity_id).cloned() {
             Some(seq) => seq,
@@ -3443,6 +3501,8 @@ impl ContinuityStore {
             .append(&event)
             .map_err(|err| format!("append continuity tool side effects: {err}"))?;
         self.stream_cache.append_best_effort(&event);
+        #[cfg(rip_verif)]
+        rip_kernel::verif::point("cont.publish");
         let _ = self.sender.send(event.clone());
 
         next_seq.insert(continuity_id.to_string(), seq + 1);
@@ -3506,9 +3566,13 @@ impl ContinuityStore {
             .append(&created)
             .map_err(|err| format!("append continuity_created: {err}"))?;
         self.stream_cache.append_best_effort(&created);
+        #[cfg(rip_verif)]
+        rip_kernel::verif::point("cont.publish");
         let _ = self.sender.send(created.clone());
 
         {
+            #[cfg(rip_verif)]
+            rip_kernel::verif::lock_point("cont.index", &|| self.index.try_lock().is_ok());
             let mut index = self.index.lock().expect("continuity index mutex");
             if set_as_default {
                 index.workspaces.insert(workspace, continuity_id.clone());
@@ -3525,12 +3589,79 @@ impl ContinuityStore {
                 .map_err(|err| format!("save continuity index: {err}"))?;
         }
 
+        #[cfg(rip_verif)]
+        rip_kernel::verif::lock_point("cont.next_seq", &|| self.next_seq.try_lock().is_ok());
         self.next_seq
             .lock()
             .expect("continuity seq mutex")
             .insert(continuity_id.clone(), 1);
 
         Ok(continuity_id)
+    }
+}
+
+#[cfg(rip_verif)]
+impl ContinuityStore {
+    /// Verification export: append a provider-cursor frame through the crate-private helper.
+    #[allow(clippy::too_many_arguments)]
+    pub fn verif_append_provider_cursor_updated(
+        &self,
+        continuity_id: &str,
+        provider: &str,
+        endpoint: Option<String>,
+        model: Option<String>,
+        cursor: Option<serde_json::Value>,
+        action: &str,
+        run_session_id: Option<String>,
+    ) -> Result<String, String> {
+        self.append_provider_cursor_updated(
+            continuity_id,
+            ProviderCursorUpdatedPayload {
+                provider: provider.to_string(),
+                endpoint,
+                model,
+                cursor,
+                action: action.to_string(),
+                reason: Some("verif".to_string()),
+                run_session_id,
+                actor_id: "verif".to_string(),
+                origin: "verif".to_string(),
+            },
+        )
+    }
+
+    /// Verification export: spawn a compaction job without running it (leaves it inflight).
+    pub fn verif_compaction_auto_spawn_job(
+        &self,
+        thread_id: &str,
+        req: CompactionAutoV1Request,
+    ) -> Result<CompactionAutoV1Response, String> {
+        self.compaction_auto_spawn_job_v1(thread_id, req)
+    }
+
+    /// Verification export: run a previously spawned compaction job.
+    pub fn verif_compaction_auto_run_spawned_job(
+        &self,
+        thread_id: &str,
+        response: &CompactionAutoV1Response,
+    ) -> Result<Vec<CompactionAutoResultCheckpointV1>, String> {
+        let job_id = response.job_id.clone().unwrap_or_default();
+        self.compaction_auto_run_spawned_job_v1(
+            thread_id,
+            &job_id,
+            response.stride_messages,
+            &response.cut_rule_id,
+            &response.planned,
+            ("verif", "verif"),
+        )
+    }
+
+    pub fn verif_compaction_auto_schedule_spawn_job(
+        &self,
+        thread_id: &str,
+        req: CompactionAutoScheduleV1Request,
+    ) -> Result<CompactionAutoScheduleV1Response, String> {
+        self.compaction_auto_schedule_spawn_job_v1(thread_id, req)
     }
 }
 
@@ -3654,8 +3785,14 @@ fn save_index(path: &Path, index: &ContinuityIndexV1) -> io::Result<()> {
     let payload = serde_json::to_string_pretty(index)
         .map_err(|err| io::Error::new(io::ErrorKind::InvalidData, err))?;
     let tmp = path.with_extension("json.tmp");
+    #[cfg(rip_verif)]
+    rip_kernel::verif::point("cont.index.write_tmp");
     fs::write(&tmp, payload)?;
+    #[cfg(rip_verif)]
+    rip_kernel::verif::point("cont.index.rename");
     fs::rename(tmp, path)?;
+    #[cfg(rip_verif)]
+    rip_kernel::verif::point("cont.index.saved");
     Ok(())
 }
 
